@@ -24,6 +24,11 @@ for _n in [1, 2, 3, 4, 5, 6, 7, 8, 9, 10, 11, 12, 13, 14, 16, 17, 18, 19, 20, 21
     CLASSES["Cog%d" % _n] = ("exactpack.solvers.cog", "Cog%d" % _n)
 
 
+def preload():
+    for fam in CLASSES:
+        solver_class(fam)
+
+
 def solver_class(fam):
     mod, cls = CLASSES[fam]
     return getattr(importlib.import_module(mod), cls)
